@@ -489,76 +489,90 @@ impl Server {
         }
     }
     
-    /// Process wake-up requests for blocked clients
+    /// Serve blocked clients. Returns true if any client was served.
+    ///
+    /// Every key that has waiting clients is looked at on each pass (pushes can
+    /// come from plain commands, transactions and scripts alike): as long as the
+    /// list holds an element, the client that has been waiting longest on that
+    /// key receives it. A client stays registered until it has really been served
+    /// (then it is removed from all the keys it waited on) or its timeout fires.
     fn process_wakeups(&self) -> Result<bool> {
-        let wakeups = self.blocking_manager.process_wakeups();
-        if wakeups.is_empty() {
-            return Ok(false);
+        // The queue only carries hints; the registry is the source of truth
+        let _ = self.blocking_manager.process_wakeups();
+        
+        let mut served_any = false;
+        for (db, key) in self.blocking_manager.keys_with_waiters() {
+            while let Some(waiter) = self.blocking_manager.first_waiter(db, &key) {
+                // A waiter whose connection is gone or no longer blocked must not
+                // consume anything: drop its registrations and look at the next one
+                let still_blocked = self.connections.with_connection(waiter.conn_id, |conn| {
+                    if matches!(conn.state, ConnectionState::Blocked(_)) && conn.is_peer_closed() {
+                        conn.state = ConnectionState::Closing;
+                    }
+                    matches!(conn.state, ConnectionState::Blocked(_))
+                }).unwrap_or(false);
+                if !still_blocked {
+                    self.blocking_manager.unregister_client(db, waiter.conn_id)?;
+                    continue;
+                }
+                
+                if !self.wake_client(WakeupRequest {
+                    conn_id: waiter.conn_id,
+                    db,
+                    key: key.clone(),
+                    op_type: waiter.op_type.clone(),
+                })? {
+                    break; // Nothing to pop from this key (any more)
+                }
+                served_any = true;
+            }
         }
         
-        for wakeup in wakeups {
-            self.wake_client(wakeup)?;
-        }
-        
-        Ok(true)
+        Ok(served_any)
     }
     
-    /// Wake up a specific blocked client with data
-    fn wake_client(&self, wakeup: WakeupRequest) -> Result<()> {
+    /// Pop an element for a blocked client and send it. Returns false when the
+    /// key holds nothing to pop (the client keeps waiting).
+    fn wake_client(&self, wakeup: WakeupRequest) -> Result<bool> {
         // Perform atomic pop based on the operation type
         let value = match wakeup.op_type {
-            super::connection::BlockingOp::BLPop => self.storage.lpop(wakeup.db, &wakeup.key)?,
-            super::connection::BlockingOp::BRPop => self.storage.rpop(wakeup.db, &wakeup.key)?,
-            super::connection::BlockingOp::XReadBlock(_) => {
-                // XReadBlock not implemented yet, skip for now
-                return Ok(());
-            }
+            super::connection::BlockingOp::BLPop => self.storage.lpop(wakeup.db, &wakeup.key).unwrap_or(None),
+            super::connection::BlockingOp::BRPop => self.storage.rpop(wakeup.db, &wakeup.key).unwrap_or(None),
+            super::connection::BlockingOp::XReadBlock(_) => None, // XReadBlock not implemented yet
         };
         
-        // Critical fix: Only proceed if we actually got data
-        // This prevents race conditions when multiple clients wake up simultaneously
-        if let Some(popped_value) = value {
-            // The pop done on behalf of the blocked client changes the dataset like any other
-            if let Some(aof) = &self.aof_engine {
-                let pop: &[u8] = match wakeup.op_type {
-                    super::connection::BlockingOp::BRPop => b"RPOP",
-                    _ => b"LPOP",
-                };
-                let effect = [RespFrame::from_bytes(pop.to_vec()), RespFrame::from_bytes(wakeup.key.clone())];
-                if let Err(e) = aof.append_command_in_db(wakeup.db, &effect) {
-                    eprintln!("Failed to append to AOF: {}", e);
-                }
-            }
-            
-            // Try to update connection state - use try_with_connection to avoid deadlock
-            if let Some(result) = self.connections.with_connection(wakeup.conn_id, |conn| -> Result<()> {
-                // Only wake if still in blocked state
-                if let ConnectionState::Blocked(_) = conn.state {
-                    // Send the response with the atomically popped value
-                    let response = RespFrame::Array(Some(vec![
-                        RespFrame::from_bytes(wakeup.key.clone()),
-                        RespFrame::from_bytes(popped_value),
-                    ]));
-                    
-                    // Try to send response - if connection is closed, ignore error
-                    if let Err(_) = conn.send_frame(&response) {
-                        // Connection closed - this is okay, just return
-                        return Ok(());
-                    }
-                    
-                    // Return connection to authenticated state
-                    conn.state = ConnectionState::Authenticated;
-                }
-                Ok(())
-            }) {
-                // Execute the result and ignore any connection errors
-                let _ = result;
+        let popped_value = match value {
+            Some(v) => v,
+            None => return Ok(false),
+        };
+        
+        // The pop done on behalf of the blocked client changes the dataset like any other
+        if let Some(aof) = &self.aof_engine {
+            let pop: &[u8] = match wakeup.op_type {
+                super::connection::BlockingOp::BRPop => b"RPOP",
+                _ => b"LPOP",
+            };
+            let effect = [RespFrame::from_bytes(pop.to_vec()), RespFrame::from_bytes(wakeup.key.clone())];
+            if let Err(e) = aof.append_command_in_db(wakeup.db, &effect) {
+                eprintln!("Failed to append to AOF: {}", e);
             }
         }
-        // If value is None (list was empty), the client should be timed out normally
-        // This is correct behavior - multiple wake-ups for same item result in only one getting data
         
-        Ok(())
+        // Hand the element over and return the connection to its normal state
+        self.connections.with_connection(wakeup.conn_id, |conn| {
+            let response = RespFrame::Array(Some(vec![
+                RespFrame::from_bytes(wakeup.key.clone()),
+                RespFrame::from_bytes(popped_value),
+            ]));
+            let _ = conn.send_frame(&response);
+            let _ = conn.flush();
+            conn.state = ConnectionState::Authenticated;
+        });
+        
+        // Served: the client no longer waits on any of its keys
+        self.blocking_manager.unregister_client(wakeup.db, wakeup.conn_id)?;
+        
+        Ok(true)
     }
     
     /// Process timeouts for blocked clients
@@ -605,10 +619,21 @@ impl Server {
         let mut did_work = false;
         
         // Get all connection IDs, filtering out blocked connections for performance
-        let conn_ids: Vec<u64> = self.connections.all_connection_ids()
-            .into_iter()
+        let all_ids = self.connections.all_connection_ids();
+        let conn_ids: Vec<u64> = all_ids.iter().cloned()
             .filter(|&id| !self.is_connection_blocked(id))
             .collect();
+        
+        // Blocked connections are not read, so a client that went away while blocked
+        // would never be noticed: it would keep its place in the waiting queues and
+        // be handed (and lose) the next element. Ask the socket without consuming.
+        for id in all_ids {
+            self.connections.with_connection(id, |conn| {
+                if matches!(conn.state, ConnectionState::Blocked(_)) && conn.is_peer_closed() {
+                    conn.state = ConnectionState::Closing;
+                }
+            });
+        }
         
         for id in conn_ids {
             // Process each connection
